@@ -16,6 +16,7 @@ type link struct {
 	w        *world
 	a, b     *party
 	qab, qba [][]byte
+	seenA    [][]byte // everything delivered to a, in order (for replay oracles)
 }
 
 func (l *link) enqueue(from *party, ms []otr3.ValidMessage) {
@@ -43,6 +44,7 @@ func (l *link) deliver(toB bool) bool {
 		}
 		m := l.qba[0]
 		l.qba = l.qba[1:]
+		l.seenA = append(l.seenA, m)
 		_, ts, _, _ := l.w.recv(l.a, m)
 		l.enqueue(l.a, ts)
 	}
@@ -162,7 +164,7 @@ func (g *gen) lifeScenario(w *world, steps int) {
 		case k < 22:
 			l.deliver(g.r.Intn(2) == 0)
 		case k < 24:
-			w.tick([]int{31, 45, 59, 61, 120, 3600}[g.r.Intn(6)]) // no subset sums to exactly 60 s (that would tie with real elapsed time)
+			w.tick([]int{31, 45, 50, 61, 120, 3600}[g.r.Intn(6)]) // no subset sum lies in (50 s, 60 s]: real elapsed time (seconds under load) must not carry the sum over the 60 s thresholds
 		case k < 26:
 			l.enqueue(p, []otr3.ValidMessage{w.query(p)})
 		case k < 28:
